@@ -458,7 +458,6 @@ fn main() {
         "builder-history" => cmd_builder_history(&args),
         "resolver" => cmd_resolver(&args),
         "convert" => cmd_convert(&args),
-        "types" => cmd_types(&args),
         _ => {
             eprintln!("unknown command");
             exit(2)
@@ -1093,103 +1092,3 @@ fn cmd_convert(args: &[String]) {
 }
 
 
-// ---------------------------------------------------------------------------------------------
-// C17: bounded stand-in for the type-name pipeline (std::any::type_name -> syn parse -> path
-// rewriting -> quote -> string: outside both verifiers).  For every type of a grammar up to nesting
-// depth 3 the recorded name must equal, up to whitespace, the source tokens that denote the type
-// (`stringify!($t)` of the very tokens used as the generic argument: the same type by construction),
-// and a type table must answer for the short spelling, the spaced spelling, the whitespace-free
-// spelling and the compiler's fully qualified spelling alike.
-
-fn squeeze(s: &str) -> String {
-    s.chars().filter(|c| !c.is_whitespace()).collect()
-}
-
-struct TypeReport {
-    checked: u64,
-    lookups: u64,
-    distinct: BTreeSet<String>,
-    violations: Vec<String>,
-    samples: Vec<Value>,
-}
-
-fn check_one<T>(tokens: &str, rep: &mut TypeReport) {
-    use truc::record::type_resolver::{HostTypeResolver, StaticTypeResolver, TypeResolver};
-    rep.checked += 1;
-    let recorded = match panic::catch_unwind(|| HostTypeResolver.type_info::<T>().name) {
-        Ok(n) => n,
-        Err(_) => {
-            if rep.violations.len() < 10 { rep.violations.push(format!("C17: recording the name of `{}` panicked", tokens)); }
-            return;
-        }
-    };
-    if rep.distinct.insert(squeeze(tokens)) && rep.samples.len() < 3 && tokens.len() > 20 {
-        rep.samples.push(json!({"type": tokens, "compiler_name": std::any::type_name::<T>(), "recorded_name": recorded}));
-    }
-    if squeeze(&recorded) != squeeze(tokens) {
-        if rep.violations.len() < 10 {
-            rep.violations.push(format!("C17: type `{}` is recorded as `{}` (compiler name `{}`)", tokens, recorded, std::any::type_name::<T>()));
-        }
-        return;
-    }
-    let mut table = StaticTypeResolver::new();
-    table.add_type::<T>();
-    let spaced: String = tokens.chars().flat_map(|c| if "<>,;[]()".contains(c) { vec![' ', c, ' '] } else { vec![c] }).collect();
-    for spelling in [tokens.to_owned(), squeeze_keep_separators(tokens), spaced, std::any::type_name::<T>().to_owned(), recorded.clone()] {
-        rep.lookups += 1;
-        let r = panic::catch_unwind(panic::AssertUnwindSafe(|| table.dynamic_type_info(&spelling)));
-        match r {
-            Ok(info) if info.info.size == std::mem::size_of::<T>() && info.info.align == std::mem::align_of::<T>() => {}
-            Ok(_) => if rep.violations.len() < 10 { rep.violations.push(format!("C17: table lookup of `{}` answers another type", spelling)); },
-            Err(_) => if rep.violations.len() < 10 { rep.violations.push(format!("C17: table lookup of `{}` (a spelling of `{}`) fails", spelling, tokens)); },
-        }
-    }
-}
-
-/// whitespace removed except where it separates two identifier characters
-fn squeeze_keep_separators(s: &str) -> String {
-    let cs: Vec<char> = s.chars().collect();
-    let mut out = String::new();
-    for (i, c) in cs.iter().enumerate() {
-        if c.is_whitespace() {
-            let prev = out.chars().last();
-            let next = cs[i + 1..].iter().find(|c| !c.is_whitespace());
-            if let (Some(p), Some(n)) = (prev, next) {
-                if (p.is_alphanumeric() || p == '_') && (n.is_alphanumeric() || *n == '_') {
-                    out.push(' ');
-                }
-            }
-        } else {
-            out.push(*c);
-        }
-    }
-    out
-}
-
-macro_rules! level0 {
-    ($rep:expr, $($t:ty),*) => { $( check_one::<$t>(stringify!($t), $rep); )* };
-}
-macro_rules! level1 {
-    ($rep:expr, $($t:ty),*) => { $( level0!($rep, $t, Box<$t>, Vec<$t>, Option<$t>, [$t; 3], Box<[$t]>, ($t, u8), Result<$t, String>); )* };
-}
-macro_rules! level2 {
-    ($rep:expr, $($t:ty),*) => { $( level1!($rep, $t, Box<$t>, Vec<$t>, Option<$t>, [$t; 3], Box<[$t]>, ($t, u8), Result<$t, String>); )* };
-}
-macro_rules! level3 {
-    ($rep:expr, $($t:ty),*) => { $( level2!($rep, $t, Box<$t>, Vec<$t>, Option<$t>, [$t; 3], Box<[$t]>, ($t, u8), Result<$t, String>); )* };
-}
-
-fn cmd_types(args: &[String]) {
-    let depth: usize = arg(args, "--depth").map_or(2, |s| s.parse().unwrap());
-    let mut rep = TypeReport { checked: 0, lookups: 0, distinct: BTreeSet::new(), violations: Vec::new(), samples: Vec::new() };
-    if depth >= 3 {
-        level3!(&mut rep, u8, u32, usize, bool, String, ());
-    } else {
-        level2!(&mut rep, u8, u32, usize, bool, String, ());
-    }
-    let res = json!({"depth": depth, "checked": rep.checked, "distinct_types": rep.distinct.len(), "lookups": rep.lookups,
-        "violations": rep.violations, "samples": rep.samples});
-    println!("{}", serde_json::to_string_pretty(&res).unwrap());
-    for v in &rep.violations { println!("REPLAY: violated {}", v); }
-    exit(if rep.violations.is_empty() { 0 } else { 1 });
-}
